@@ -39,6 +39,26 @@ def gen_cases(rng, tier):
         for p in small:
             for f in (foci if tier == "quick" or len(cases) < 40000 else foci[:2]):
                 cases.append({"g": gi, "path": p, "focus": f, "kind": "exhaustive"})
+    # sequences that pass THROUGH a literal: the literal is an intermediate node, the next step is an inverse or a
+    # path that may have length zero (a literal is no subject, but it is an object and it is a node)
+    for extra in range(2 if tier == "quick" else 6):
+        nodes, lits = enc.gen_nodes(rng, n_iri=rng.randint(2, 4), n_bn=1, n_lit=2)
+        g = enc.gen_data(rng, PREDS, nodes, lits, rng.randint(1, 5))
+        for n_ in nodes:
+            for pr in PREDS[:2]:
+                if rng.random() < 0.6:
+                    g.add((n_, URIRef(pr), rng.choice(lits)))
+        graphs.append((g, nodes, lits))
+        gi = len(graphs) - 1
+        for first in PREDS[:2]:
+            for second in ([("inv", ("pred", q)) for q in PREDS[:2]] + [("star", ("pred", PREDS[0])), ("opt", ("pred", PREDS[1])),
+                           ("plus", ("inv", ("pred", PREDS[0]))), ("alt", [("inv", ("pred", PREDS[1])), ("pred", PREDS[0])]),
+                           ("star", ("inv", ("pred", PREDS[1])))]):
+                for f in nodes + lits[:1]:
+                    cases.append({"g": gi, "path": ("seq", [("pred", first), second]), "focus": f, "kind": "through-literal"})
+                    if rng.random() < 0.3:
+                        cases.append({"g": gi, "path": ("seq", [("pred", first), second, ("inv", ("pred", first))]), "focus": f, "kind": "through-literal"})
+    n_graphs = len(graphs)
     for i in range(n_random):
         gi = rng.randrange(n_graphs)
         g, nodes, lits = graphs[gi]
